@@ -102,8 +102,9 @@ func (a *ApplicationDefined) Unmarshal(rawPacket []byte) error {
 	// Check for padding.
 	paddingSize := 0
 	if header.Padding {
+		// the last padding octet counts the padding octets including itself
 		paddingSize = int(rawPacket[len(rawPacket)-1])
-		if paddingSize > len(rawPacket)-12 {
+		if paddingSize == 0 || paddingSize > len(rawPacket)-12 {
 			return errWrongPadding
 		}
 	}
